@@ -210,6 +210,8 @@ def decide(pid, prop, tier, seed, results, extra, t0, args):
                 rec["note"] = ((rec.get("note") or "") + " [obligation of a locked contract on a path that is new on this tree]").strip()
                 violations.append(rec)
             else:
+                if ob["verdict"] == "unknown":
+                    rec["note"] = ((rec.get("note") or "") + " [solver stages: " + str(ob.get("backend")) + "]").strip()
                 undecided.append(rec)
 
     # names: an obligation name counts as discharged only if every instance is
